@@ -72,7 +72,7 @@ pub fn all() -> Vec<Prop> {
         Prop { id: "C11", gen: gen_c11, monitor: mon::c11, quick_level: QL_C11, thorough_level: TL_C11, bound_quick: None, bound_thorough: None, max_execs_quick: 50_000, max_execs_thorough: 1_000_000, features: "" },
         Prop { id: "C14", gen: gen_c14, monitor: mon::c14, quick_level: QL_C14, thorough_level: TL_C14, bound_quick: None, bound_thorough: None, max_execs_quick: 50_000, max_execs_thorough: 1_000_000, features: "f_deadlock" },
         Prop { id: "C15", gen: gen_c15, monitor: mon::c15, quick_level: QL_C15, thorough_level: TL_C15, bound_quick: None, bound_thorough: None, max_execs_quick: 50_000, max_execs_thorough: 1_000_000, features: "f_deadlock" },
-        Prop { id: "C20", gen: gen_c20, monitor: mon::c20, quick_level: QL_C20, thorough_level: TL_C20, bound_quick: Some(2), bound_thorough: Some(3), max_execs_quick: 2_000, max_execs_thorough: 20_000, features: "f_metrics" },
+        Prop { id: "C20", gen: gen_c20, monitor: mon::c20, quick_level: QL_C20, thorough_level: TL_C20, bound_quick: Some(2), bound_thorough: Some(3), max_execs_quick: 2_000, max_execs_thorough: 6_000, features: "f_metrics" },
         Prop { id: "C18", gen: gen_c18, monitor: mon::none, quick_level: QL_C18, thorough_level: TL_C18, bound_quick: None, bound_thorough: None, max_execs_quick: 3_000, max_execs_thorough: 3_000, features: "" },
         Prop { id: "C12", gen: gen_c12, monitor: mon::c12, quick_level: QL_C12, thorough_level: TL_C12, bound_quick: None, bound_thorough: None, max_execs_quick: 10_000, max_execs_thorough: 200_000, features: "f_deadlock,f_metrics,f_testutils,f_tracing" },
         Prop { id: "C19", gen: gen_c19, monitor: mon::c19rt, quick_level: QL_C19, thorough_level: TL_C19, bound_quick: None, bound_thorough: None, max_execs_quick: 10_000, max_execs_thorough: 200_000, features: "" },
@@ -2418,6 +2418,18 @@ fn gen_c20(lvl: u8) -> Vec<Scenario> {
     let _ = xl;
     let mut out = Vec::new();
     let mut n = 0;
+    // (first in the list: whatever the time budget does to the tail of the list, these run)
+    // one handler that takes more than a second of real time (durations are kept with full precision); in the thorough
+    // tier also one of 4.5 s, more than 2^32 ns
+    for busy in if thorough { vec![1050u32, 4500] } else { vec![1050u32] } {
+        let mut ids = Ids(0);
+        let mut m = MsgSpec::m1(ids.next()).steps(vec![Step::Busy(busy)]);
+        m.entry_yield = false;
+        let mut c0 = Program::new(vec![(0, 0)], vec![send(SendKind::Tell, 0, m), send(SendKind::Ask, 0, MsgSpec::quick(ids.next())), Step::Stop(0), Step::Sleep(10), Step::Metrics(0)]);
+        c0.auto_yield = false;
+        n += 1;
+        out.push(scn(format!("c20-{n}-long-handler-{busy}ms"), vec![ActorSpec::plain(2)], vec![c0], &["metrics_build"]));
+    }
     #[derive(Clone, Copy, Debug, PartialEq)]
     enum Hk {
         Fast,
@@ -2495,16 +2507,6 @@ fn gen_c20(lvl: u8) -> Vec<Scenario> {
                 out.push(scn(format!("c20-{n}-{seq:?}-{cause:?}-r{readers}"), vec![a], clients, &["metrics_build"]));
             }
         }
-    }
-    // one handler that takes more than a second of real time (durations are kept with full precision)
-    {
-        let mut ids = Ids(0);
-        let mut m = MsgSpec::m1(ids.next()).steps(vec![Step::Busy(1050)]);
-        m.entry_yield = false;
-        let mut c0 = Program::new(vec![(0, 0)], vec![send(SendKind::Tell, 0, m), send(SendKind::Ask, 0, MsgSpec::quick(ids.next())), Step::Stop(0), Step::Sleep(10), Step::Metrics(0)]);
-        c0.auto_yield = false;
-        n += 1;
-        out.push(scn(format!("c20-{n}-long-handler"), vec![ActorSpec::plain(2)], vec![c0], &["metrics_build"]));
     }
     out
 }
